@@ -2,10 +2,12 @@
 
 Correspondence (model vs real btclib, word-INDEX level): GF(256) tables (exhaustive), `_interpolate`,
 `_split_secret` (entropy transcript replayed), `_recover_secret`, RS1024, share codec, Feistel, the whole of
-`master_secret_from_mnemonics` (iteration exponent 0), entropy.py digit conversions, BIP39 encode/decode in every
+`master_secret_from_mnemonics` and `mnemonics_from_master_secret` (iteration exponents 0..2, both flag values), entropy.py digit conversions, BIP39 encode/decode in every
 language, BIP39/Electrum seeds vs the shared PBKDF2, Electrum version rule, BIP85 HMAC.
 Word lists are an opaque bijection checked exhaustively each run (`wordlist.bijection`).
-Property oracles run on the real code alone.
+Property oracles run on the real code alone.  Seeds and master keys on hostile Unicode text (passphrases, sentence
+spellings, every language) are decided against Electrum's normalize_text / BIP39's NFKD rule + PBKDF2 + BIP32 written from
+the specifications in harness/c13_text.py (oracles electrum.text, electrum.spelling, bip39.text).
 """
 from __future__ import annotations
 
@@ -19,6 +21,7 @@ from btclib.exceptions import BTClibValueError
 from btclib.mnemonic import bip39, dispatch, electrum, entropy, slip39
 from btclib.mnemonic.mnemonic import BIP39_LANGUAGE_FILES, WORDLISTS, indexes_from_mnemonic, mnemonic_from_indexes
 
+from . import c13_text as T
 from . import common, shared
 from .common import hx, unhx
 
@@ -488,44 +491,20 @@ def _o_electrum_roundtrip(w):
     if electrum.mnemonic_from_entropy(typ, back - 1, lang) != m:
         return False, f"{lang}: searching from {back - 1} does not return the same sentence"
     pw = w.get("pw", "")
-    want = hashlib.pbkdf2_hmac("sha512", norm.encode(), ("electrum" + electrum._normalize(pw)).encode(), 2048, 64)
+    want = T.ref_electrum_seed(m, pw)
+    if norm != ref_electrum_normalize(m):
+        return False, f"{lang}: normalised sentence is not Electrum's normalize_text of '{m}'"
     if electrum._seed_from_mnemonic(m, pw) != (typ, want):
-        return False, f"{lang}: seed differs from PBKDF2 of the normalised sentence"
+        return False, f"{lang}: seed differs from PBKDF2(normalize_text(sentence), 'electrum' + normalize_text({pw!r}))"
+    bad = _electrum_master_bad(m, pw, w.get("net", "mainnet"), typ, want)
+    if bad:
+        return False, f"{lang}: {bad}"
     return True, f"{lang} {typ}"
 
 
-# the scripts of the word lists electrum reads as CJK (hiragana/katakana, CJK ideographs, hangul, fullwidth forms)
-_REF_CJK = ((0x3040, 0x30FF), (0x4E00, 0x9FFF), (0x3400, 0x4DBF), (0xF900, 0xFAFF), (0xAC00, 0xD7AF),
-            (0x1100, 0x11FF), (0x3130, 0x318F), (0xFF00, 0xFFEF))
-
-
-def _ref_is_cjk(c):
-    return any(lo <= ord(c) <= hi for lo, hi in _REF_CJK)
-
-
-def ref_electrum_normalize(text: str) -> str:
-    """Electrum's normalize_text, rewritten: NFKD, lower-case, combining marks dropped, whitespace collapsed, and the
-    whitespace between two CJK characters removed."""
-    t = unicodedata.normalize("NFKD", text).lower()
-    t = "".join(c for c in t if not unicodedata.combining(c))
-    t = " ".join(t.split())
-    return "".join(c for i, c in enumerate(t) if not (c == " " and _ref_is_cjk(t[i - 1]) and _ref_is_cjk(t[i + 1])))
-
-
-def ref_electrum_type(m: str) -> str:
-    """Electrum's seed_type for a sentence that is not an old-style seed: the word count is taken BEFORE the
-    normalisation (which joins CJK words), the prefix from HMAC-SHA512("Seed version", normalised sentence)."""
-    n = len(m.split())
-    sv = hmac.new(b"Seed version", ref_electrum_normalize(m).encode(), hashlib.sha512).hexdigest()
-    if sv.startswith("01"):
-        return "standard"
-    if sv.startswith("100"):
-        return "segwit"
-    if sv.startswith("101") and (n == 12 or n >= 20):
-        return "2fa"
-    if sv.startswith("102"):
-        return "2fa_segwit"
-    return ""
+# Electrum's normalize_text / calc_seed_type written from Electrum's source (harness/c13_text.py: the FULL CJK table)
+ref_electrum_normalize = T.ref_electrum_normalize
+ref_electrum_type = T.ref_electrum_seed_type
 
 
 def _o_electrum_version(w):
@@ -554,6 +533,137 @@ def _o_electrum_version(w):
     if want in ("standard", "segwit") and not electrum.mxprv_from_mnemonic(m):
         return False, "no master key"
     return True, f"{lang} {want}"
+
+
+def _electrum_master_bad(m, pw, net, typ, seed):
+    """master key of an Electrum sentence against BIP32 written from the BIP: root for `standard`, child 0' under
+    SLIP-0132's p2wpkh version for `segwit`, a refusal for every other type.  Returns a complaint or None."""
+    try:
+        got = electrum.mxprv_from_mnemonic(m, pw, net)
+    except BTClibValueError as ex:
+        return None if typ not in ("standard", "segwit") else f"master key of a '{typ}' seed refused: {ex}"
+    if typ not in ("standard", "segwit"):
+        return f"a master key is returned for a '{typ or 'no'}' seed"
+    want = T.ref_master(seed, T.XPRV_VERSIONS[(net, typ)], hardened_child0=typ == "segwit")
+    if want is not None and got != want:
+        return (f"master key ({net}, {typ}) with passphrase {pw!r} is {got}, BIP32 of the independently stretched "
+                f"seed gives {want}")
+    return None
+
+
+def _o_electrum_text(w):
+    """hostile text `t` (a) through the normalisation, (b) read as a sentence by the public entry points, (c) as the
+    passphrase of the valid sentence `m`: normalised text, version, seed and master key against Electrum's rules."""
+    import re
+    t, m, net = w["t"], w["m"], w.get("net", "mainnet")
+    want = ref_electrum_normalize(t)
+    try:
+        want.encode()
+    except UnicodeEncodeError:
+        try:
+            electrum._seed_from_mnemonic(m, t)
+        except BTClibValueError:
+            return True, "unencodable text refused"
+        return False, f"a passphrase that has no UTF-8 encoding is stretched: {t!r}"
+    got = electrum._normalize(t)
+    if got != want:
+        return False, f"_normalize({t!r}) = {got!r}, Electrum's normalize_text gives {want!r}"
+    typ = ref_electrum_type(t)
+    try:
+        ver, norm = electrum.version_from_mnemonic(t)
+    except BTClibValueError as ex:
+        if typ:
+            return False, f"{t!r} is a '{typ}' seed by Electrum's rule and is refused: {ex}"
+        q = re.search(r"version: '([0-9a-f]{3})'", str(ex))
+        if q and q.group(1) != T.ref_seed_version(t)[:3]:
+            return False, (f"version prefix of {t!r} reported as {q.group(1)}, HMAC-SHA512('Seed version', "
+                           f"normalize_text) starts {T.ref_seed_version(t)[:3]}")
+    else:
+        if (ver, norm) != (typ, want):
+            return False, f"{t!r} read as ({ver!r}, {norm!r}); Electrum's rules give ({typ!r}, {want!r})"
+        if typ != "old":
+            pw = w.get("pw", "")
+            seed = T.ref_electrum_seed(t, pw)
+            if electrum._seed_from_mnemonic(t, pw) != (typ, seed):
+                return False, f"seed of the sentence {t!r} with passphrase {pw!r} is not Electrum's"
+            bad = _electrum_master_bad(t, pw, net, typ, seed)
+            if bad:
+                return False, f"sentence {t!r}: {bad}"
+    mtyp = ref_electrum_type(m)
+    seed = T.ref_electrum_seed(m, t)
+    if electrum._seed_from_mnemonic(m, t) != (mtyp, seed):
+        return False, (f"seed with passphrase {t!r} (normalize_text: {want!r}) is not PBKDF2-HMAC-SHA512(sentence, "
+                       f"'electrum' + normalize_text(passphrase), 2048)")
+    bad = _electrum_master_bad(m, t, net, mtyp, seed)
+    if bad:
+        return False, bad
+    return True, f"{len(t)} characters, read as '{typ or '-'}'"
+
+
+def _o_electrum_spelling(w):
+    """another spelling `ms` of the library-generated sentence `m` (and `pws` of the passphrase `pw`): version, seed and
+    master key are those of Electrum's rules applied to the spelling, and those of the original."""
+    m, ms, pw, pws, lang, net = w["m"], w["ms"], w["pw"], w["pws"], w["lang"], w.get("net", "mainnet")
+    typ = ref_electrum_type(ms)
+    if ref_electrum_normalize(ms) != ref_electrum_normalize(m) or ref_electrum_normalize(pws) != ref_electrum_normalize(pw):
+        raise common.HarnessError(f"respelling changed the normalised text: {m!r} -> {ms!r}")
+    try:
+        ver, norm = electrum.version_from_mnemonic(ms)
+    except BTClibValueError as ex:
+        return False, f"{lang}: the spelling {ms!r} of a valid '{typ}' sentence is refused: {ex}"
+    if (ver, norm) != (typ, ref_electrum_normalize(ms)):
+        return False, f"{lang}: {ms!r} read as ({ver!r}, {norm!r}), Electrum's rules give ({typ!r}, {ref_electrum_normalize(ms)!r})"
+    seed = T.ref_electrum_seed(ms, pws)
+    if electrum._seed_from_mnemonic(ms, pws) != (typ, seed):
+        return False, f"{lang}: seed of the spelling {ms!r} / passphrase {pws!r} is not Electrum's"
+    if electrum._seed_from_mnemonic(m, pw) != (typ, seed):
+        return False, f"{lang}: {m!r} and its spelling {ms!r} stretch to different seeds"
+    bad = _electrum_master_bad(ms, pws, net, typ, seed)
+    if bad:
+        return False, f"{lang}: {bad}"
+    return True, f"{lang} {typ}"
+
+
+def _o_bip39_text(w):
+    """BIP39 seed and master key on hostile text: `ms` is a spelling of the valid sentence `m` (composed forms,
+    compatibility letters, any blanks), `pw` any text; with "t" a text that is no sentence at all (checksum unverified).
+    BIP39: PBKDF2-HMAC-SHA512(NFKD sentence, "mnemonic" + NFKD passphrase, 2048, 64).  btclib reads every run of blanks
+    as one blank (documented); where the spelling is canonical after NFKD the reference is BIP39's to the letter."""
+    pw, net = w["pw"], w.get("net", "mainnet")
+    try:
+        (w.get("t", "") + pw).encode()
+    except UnicodeEncodeError:
+        try:
+            bip39.seed_from_mnemonic(w.get("t") or w["ms"], pw, verify_checksum=False)
+        except BTClibValueError:
+            return True, "unencodable text refused"
+        return False, "text without a UTF-8 encoding is stretched"
+    if "t" in w:
+        t = w["t"]
+        want = T.ref_bip39_seed(" ".join(unicodedata.normalize("NFKD", t).split()), pw)
+        if bip39.seed_from_mnemonic(t, pw, verify_checksum=False) != want:
+            return False, f"seed of the text {t!r} / passphrase {pw!r} is not PBKDF2 of their NFKD forms"
+        if bip39.mxprv_from_mnemonic(t, pw, net, verify_checksum=False) != T.ref_master(want, T.XPRV_VERSIONS[(net, "standard")]):
+            return False, f"master key of the text {t!r} / passphrase {pw!r} is not the BIP32 root of the BIP39 seed"
+        return True, "text"
+    m, ms, lang = w["m"], w["ms"], w["lang"]
+    nf = unicodedata.normalize("NFKD", ms)
+    canon = " ".join(nf.split())
+    if canon != " ".join(unicodedata.normalize("NFKD", m).split()):
+        raise common.HarnessError(f"respelling changed the NFKD text: {m!r} -> {ms!r}")
+    want = T.ref_bip39_seed(canon, pw)
+    if nf == canon and want != T.ref_bip39_seed(ms, pw):
+        raise common.HarnessError("reference disagrees with itself")
+    got = bip39.seed_from_mnemonic(ms, pw)
+    if got != want:
+        return False, (f"{lang}: seed of {ms!r} with passphrase {pw!r} (NFKD {unicodedata.normalize('NFKD', pw)!r}) is not "
+                       f"PBKDF2-HMAC-SHA512(NFKD sentence, 'mnemonic' + NFKD passphrase, 2048)")
+    if bip39.mxprv_from_mnemonic(ms, pw, net) != T.ref_master(want, T.XPRV_VERSIONS[(net, "standard")]):
+        return False, f"{lang}: master key of {ms!r} / {pw!r} is not the BIP32 root of the BIP39 seed"
+    e = bip39.entropy_from_mnemonic(m, lang)
+    if bip39.entropy_from_mnemonic(ms, lang) != e or bip39.entropy_from_mnemonic(ms) != e:
+        return False, f"{lang}: the spelling {ms!r} decodes to another entropy than {m!r}"
+    return True, f"{lang} {'canonical' if nf == canon else 'blanks'}"
 
 
 def _o_slip39_set(w):
@@ -793,7 +903,8 @@ def _guarded(name, fn):
     return run
 
 
-ORACLES = {"electrum.version": _o_electrum_version, "bip85.apps": _o_bip85_apps, "slip39.kdf": _o_slip39_kdf, "dispatch.lang": _o_dispatch, "wordlist.bijection": _o_wordlist, "bip39.roundtrip": _o_bip39_roundtrip,
+ORACLES = {"electrum.text": _o_electrum_text, "electrum.spelling": _o_electrum_spelling, "bip39.text": _o_bip39_text,
+           "electrum.version": _o_electrum_version, "bip85.apps": _o_bip85_apps, "slip39.kdf": _o_slip39_kdf, "dispatch.lang": _o_dispatch, "wordlist.bijection": _o_wordlist, "bip39.roundtrip": _o_bip39_roundtrip,
            "bip39.substitution": _o_bip39_substitution, "electrum.roundtrip": _o_electrum_roundtrip,
            "slip39.set": _o_slip39_set, "slip39.substitution": _o_slip39_substitution,
            "slip39.codec": _o_slip39_codec, "bip85.hmac": _o_bip85}
@@ -988,7 +1099,7 @@ def run(ctx):
     ctx.stream("slip39.encode", enc_lines)
     ctx.stream("slip39.decode", dec_lines)
 
-    # --- Feistel (iteration exponent 0 in the model) -----------------------------------------------------
+    # --- Feistel (iteration exponents 0..2 through the model; 0..5 against hashlib in slip39.kdf) -----------------------------------------------------
     lines = []
     for _ in range(ctx.n(8, 60)):
         pw = "".join(chr(rng.randrange(32, 127)) for _ in range(rng.randrange(0, 12)))
@@ -1214,6 +1325,74 @@ def run(ctx):
                 break
     ctx.stream("electrum.index", lines)
     ctx.stream("electrum.seed", seed_lines)
+
+    # --- seeds and master keys on hostile text: independent Electrum / BIP39 key stretching (harness/c13_text.py) ---
+    def sens(kind, *texts):
+        for t in texts:
+            try:
+                t.encode()
+            except UnicodeEncodeError:
+                continue
+            for k, v in T.normalize_variants(t).items():
+                if v:
+                    ctx.count("text.sensitive_to", f"{kind}:{k}")
+            if unicodedata.normalize("NFKD", t) != t:
+                ctx.count("text.sensitive_to", f"{kind}:nfkd_changes_it")
+    el_base = []
+    for j, lang in enumerate(electrum.ELECTRUM_WORDLISTS.languages):
+        typ = "segwit" if j % 4 == (3 + ctx.seed) % 4 else "standard"
+        m = electrum.mnemonic_from_entropy(typ, (1 << 125) + rng.getrandbits(125), lang)
+        el_base.append(m)
+        ctx.count("text.electrum_lang", f"{lang}:{typ}")
+        for k in range(ctx.n(3, 12)):
+            pw = "" if k == 0 else T.hostile_text(rng, 4)
+            ms, pws = T.respell(rng, m, "electrum"), T.respell(rng, pw, "electrum")
+            sens("electrum.spelling", ms, pws)
+            ctx.check("electrum.spelling", {"m": m, "ms": ms, "pw": pw, "pws": pws, "lang": lang,
+                                            "net": rng.choice(["mainnet", "testnet"])})
+    for j in range(ctx.n(150, 2000)):
+        t = T.hostile_text(rng)
+        sens("electrum.text", t)
+        ctx.check("electrum.text", {"t": t, "m": el_base[j % len(el_base)], "net": rng.choice(["mainnet", "testnet"])})
+    for t in T.cjk_border_texts(rng):
+        ctx.count("text.cjk_border", "inside" if T.ref_is_cjk(t[0]) and T.ref_is_cjk(t[-1]) else "outside")
+        ctx.check("electrum.text", {"t": t, "m": el_base[0]})
+    # hostile text that IS a seed: searched until its version prefix is each derivable type; hex seeds in digits and
+    # letters only NFKD makes ASCII (read as `old`); a text with no UTF-8 encoding
+    want = {"standard": ctx.n(3, 12), "segwit": ctx.n(1, 4)}
+    for _ in range(120000):
+        if not any(want.values()):
+            break
+        t = T.hostile_text(rng)
+        typ = {"01": "standard", "10": "segwit"}.get(T.ref_seed_version(t)[:2])
+        if typ and want[typ] > 0 and ref_electrum_type(t) == typ:
+            want[typ] -= 1
+            sens("electrum.text.valid", t)
+            ctx.count("text.hostile_sentence", typ)
+            ctx.check("electrum.text", {"t": t, "m": el_base[0], "pw": T.hostile_text(rng, 3),
+                                        "net": rng.choice(["mainnet", "testnet"])})
+    if any(want.values()):
+        raise common.HarnessError(f"hostile-sentence search: versions not found: {want}")
+    for nb in (16, 32):
+        ctx.check("electrum.text", {"t": T.hostile_hex(rng, nb), "m": el_base[1]})
+        ctx.count("text.hostile_sentence", "old-hex")
+    ctx.check("electrum.text", {"t": "a\ud800b", "m": el_base[0]})
+    for lang in BIP39_LANGS:
+        m = bip39.mnemonic_from_entropy(common.rand_bytes(rng, rng.choice([16, 20, 24, 28, 32])), lang)
+        for k in range(ctx.n(3, 12)):
+            ms = T.respell(rng, m, "bip39") if k else m
+            pw = T.hostile_text(rng, 5)
+            sens("bip39.spelling", ms, pw)
+            ctx.check("bip39.text", {"m": m, "ms": ms, "pw": pw, "lang": lang, "net": rng.choice(["mainnet", "testnet"])})
+    for _ in range(ctx.n(40, 600)):
+        t, pw = T.hostile_text(rng), T.hostile_text(rng, 4)
+        sens("bip39.text", t, pw)
+        ctx.check("bip39.text", {"t": t, "pw": pw, "net": rng.choice(["mainnet", "testnet"])})
+    ctx.check("bip39.text", {"t": "abandon", "pw": "\udfff"})
+    for need in ("electrum.text:lower_before_nfkd", "electrum.text:keep_marks", "electrum.text:no_cjk_join",
+                 "electrum.text:no_nfkd", "electrum.spelling:lower_before_nfkd", "bip39.spelling:nfkd_changes_it"):
+        if ctx.hist.get("text.sensitive_to", {}).get(need, 0) < 5:
+            raise common.HarnessError(f"text generator: fewer than 5 texts sensitive to `{need}`")
 
     # --- BIP85 --------------------------------------------------------------------------------------------------------
     lines = []
